@@ -18,6 +18,7 @@ structure RwSt where
   entitledSoFar : Nat := 0
 
 structure IssueSt where
+  br : Sif.Bridge.BState := Sif.Bridge.BState.empty
   cfg : MintCfg
   ecoBlocked : Bool
   ms : MintState
@@ -136,6 +137,30 @@ def handleRewards (st : IssueSt) : List String → Option (IssueSt × String)
       some (st, toString (Sif.Spec.C20.rewardsCumOK st.rw.accu0 st.rw.entitledSoFar totalMinted accuNow))
   | _ => none
 
+def parseApproved (s : String) : Option (List (Nat × Nat)) :=
+  (if s = "-" then [] else s.splitOn ",").mapM fun x =>
+    match x.splitOn ":" with
+    | [a, b] => do let a ← parseNat a; let b ← parseNat b; some (a, b)
+    | _ => none
+
+/-- family `bridgecredit` -/
+def handleBridge (st : IssueSt) : List String → Option (IssueSt × String)
+  | ["br.init"] => some ({ st with br := Sif.Bridge.BState.empty }, "ok")
+  | ["br.claim", pid, amount, rowan, accepted, success] => do
+      let pid ← parseNat pid; let amount ← parseNat amount; let rowan ← parseBool rowan
+      let accepted ← parseBool accepted; let success ← parseBool success
+      let (s', acc, created) := Sif.Bridge.claim st.br ⟨pid, amount, rowan, accepted, success⟩
+      some ({ st with br := s' }, s!"res={if acc then "ok" else "err"} created={created}")
+  | ["chk", "c20.bridgetx", _tag, fb, acc, sa, rowan, amount, delta] => do
+      let fb ← parseBool fb; let acc ← parseBool acc; let sa ← parseBool sa; let rowan ← parseBool rowan
+      let amount ← parseNat amount; let delta ← parseNat delta
+      some (st, toString (Sif.Spec.C20.bridgeTxOK fb acc sa rowan amount delta))
+  | ["chk", "c20.supplyeq", _tag, s0, s1, eco, rewards, approved] => do
+      let s0 ← parseNat s0; let s1 ← parseNat s1; let eco ← parseNat eco; let rewards ← parseNat rewards
+      let approved ← parseApproved approved
+      some (st, toString (Sif.Spec.C20.supplyEqOK s0 s1 eco rewards approved))
+  | _ => none
+
 /-- a node restart is not an operation of the model: its state is exactly the stored counters -/
 def handleRestart (st : IssueSt) : List String → Option (IssueSt × String)
   | ["restart", _h] => some (st, s!"c={showCounter st.ms.counter} accu={st.rw.accu}")
@@ -147,6 +172,9 @@ def handleIssue (st : IssueSt) (toks : List String) : Option (IssueSt × String)
   | none =>
     match handleRewards st toks with
     | some r => some r
-    | none => handleRestart st toks
+    | none =>
+      match handleBridge st toks with
+      | some r => some r
+      | none => handleRestart st toks
 
 end Sif.Drv
